@@ -223,7 +223,7 @@ func runC15(c *Ctx) {
 		c.Analysed(fnName(checkTS))
 		cls := func(e *PPA, st *State, rv RV) string {
 			rv = e.Resolve(st, rv)
-			if p, ok := rv.V.(*ssa.Parameter); ok && p.Parent() == checkTS && len(checkTS.Params) == 2 && p == checkTS.Params[1] {
+			if p, ok := rv.V.(*ssa.Parameter); ok && p.Parent() == checkTS && len(checkTS.Params) == 2 && p == param(checkTS, 1) {
 				return "NEWTS"
 			}
 			if loadOfField(rv.V, a.fTs) {
@@ -242,7 +242,7 @@ func runC15(c *Ctx) {
 				st := len(p.Trace) == 1
 				ok := st == (rel > 0) && len(e.Paths) == 1
 				if st {
-					ok = ok && p.Trace[0].Args[1].V == ssa.Value(checkTS.Params[1])
+					ok = ok && p.Trace[0].Args[1].V == ssa.Value(param(checkTS, 1))
 				}
 				c.Check(ok, "C15.latest", fnName(checkTS), fmt.Sprintf("new timestamp %+d vs stored", rel), P.Pos(checkTS.Pos()), fmt.Sprintf("stores=%v paths=%d", st, len(e.Paths)))
 			}
